@@ -115,6 +115,16 @@ func MalformedType(rt *rapid.T) string {
 			"Nullable(LowCardinality(String))", "Nullable(Array(Int8))", "Nested(a Int8)", "AggregateFunction(sum, Int8)", "Enum8('a'=1)extra", "\x00", "Array(\xff)"}).Draw(rt, "bad")
 	case 3:
 		return string(rapid.SliceOfN(rapid.Byte(), 0, 40).Draw(rt, "bytes"))
+	case 5:
+		// a known base followed by a token soup as parameters
+		base := rapid.SampledFrom([]string{"Enum8", "Enum16", "DateTime", "DateTime64", "Decimal", "Decimal32", "Decimal128", "FixedString", "Map", "Tuple", "Array",
+			"Nullable", "LowCardinality", "Interval", "IntervalSecond", "Nothing", "Point", "String", "Int8"}).Draw(rt, "soup-base")
+		toks := rapid.SliceOfN(rapid.SampledFrom([]string{"'", "'", "=", ",", " ", "a", "1", "-", "\\", "(", ")", "''", "'=", "= ", "9", "UTC", "String", "x"}), 0, 8).Draw(rt, "soup")
+		s := base + "(" + strings.Join(toks, "") + ")"
+		for d := rapid.IntRange(0, 2).Draw(rt, "soup-wrap"); d > 0; d-- {
+			s = rapid.SampledFrom([]string{"Array", "Nullable", "LowCardinality"}).Draw(rt, "soup-wrapper") + "(" + s + ")"
+		}
+		return s
 	case 4:
 		return rapid.StringMatching(`[A-Za-z(),' 0-9=]{0,30}`).Draw(rt, "soup")
 	default:
